@@ -123,6 +123,21 @@ def judge(name, d):
         if d.get("lost", "0") != "0":
             return ("queue-drain-lost-items", f"an item whose put() returned true could not be retrieved in {d.get('lost')} trials", True)
         return None
+    if parts[0] == "drain_until":
+        k = int(parts[1][4:])
+        exp_vals = ",".join(str(100 + i) for i in range(k))
+        if ret == "none":
+            return ("queue-drain-blocks", f"put x{k}; close; get_until x{k} blocked", True)
+        if d.get("drained") != exp_vals or d.get("size_after") != "0":
+            return ("queue-drain-lost-items", f"get_until: items accepted before close() were not handed out in order: got {d.get('drained')}, expected {exp_vals}", True)
+        if d.get("closed_after_drain") != "1" or d.get("open_after_drain") != "0":
+            return ("queue-drained-not-closed", f"after put x{k}; close; get_until x{k} the queue reports is_closed()={d.get('closed_after_drain')} "
+                    f"is_open()={d.get('open_after_drain')}; a further get_until(300 ms) returned {d.get('until300_after_drain')} after {d.get('until300_ms')} ms", True)
+        if d.get("until300_after_drain") != "0":
+            return ("queue-drained-not-closed", "get_until(300 ms) on the drained closed queue returned true", True)
+        if float(d.get("until300_ms", "0")) >= FAST:
+            return ("queue-drained-not-closed", f"get_until on the drained closed queue took {d.get('until300_ms')} ms (expected an immediate false)", False)
+        return None
     if parts[0] == "drain":
         k = int(parts[1][4:])
         exp_vals = ",".join(str(100 + i) for i in range(k)) or "-"
